@@ -279,6 +279,8 @@ const _: (/* conversions */) = {
 
     impl Node {
         fn from_base(mut base: base::Node, parent_fangses: Option<&base::FangsList>) -> Self {
+            base.inherit_fangs_to_children();
+
             /* skip compression on edge runtimes */
             #[cfg(feature="__rt_native__")]
             /* compress: merge single-child static pattern and compress routing tree */
@@ -303,6 +305,7 @@ const _: (/* conversions */) = {
                     None    => child.pattern.unwrap(/* not root */),
                     Some(p) => p.merge_statics(child.pattern.unwrap(/* not root */)).unwrap(/* both are Pattern::Static */)
                 });
+                base.inherit_fangs_to_children();
             }
 
             base.children.sort_by(|a, b| match (
